@@ -156,7 +156,8 @@ def gen_case(rng, large=False, fasta_pairs=False):
     fasta = rng.random() < 0.15 or fasta_pairs
     if fasta_pairs:
         opts = [o for i, o in enumerate(opts) if o != "-q" and (i == 0 or opts[i - 1] != "-q")]
-    ext = rng.choice([".fastq", ".fq", ".fastq.gz", ".fq.bz2"]) if not fasta else rng.choice([".fasta", ".fa.gz"])
+    # extensions are recognised whatever their case
+    ext = rng.choice([".fastq", ".fq", ".fastq.gz", ".fq.bz2", ".FASTQ", ".Fq.gz"]) if not fasta else rng.choice([".fasta", ".fa.gz", ".FASTA", ".Fa", ".FA.gz"])
     if rng.random() < 0.5:
         opts += ["-m", str(rng.randint(3, 20))]
         if rng.random() < 0.6:
